@@ -71,7 +71,11 @@ class ClosestIndex(ParameterTransformation):
                         self._materials, isotropic=is_isotropic, diagonally_anisotropic=is_diagonally_anisotropic
                     )
                 )
-                if is_isotropic or is_diagonally_anisotropic:
+                if is_isotropic:
+                    # (num_materials, 1) -> (num_materials,): arr[..., None] must broadcast voxel-wise against
+                    # the list of scalar inverse permittivities, not against a trailing component axis
+                    allowed_inv_perms = (1 / allowed_perm_array).squeeze(-1)
+                elif is_diagonally_anisotropic:
                     allowed_inv_perms = 1 / allowed_perm_array
                 else:
                     # Fully anisotropic: reshape to 3x3 matrix, invert, and flatten back to 9 elements
